@@ -128,7 +128,7 @@ pub fn means(cfg: &mut Cfg, rep: &mut Report) {
                     if wtot != 0 && df.weighted_mean(&wf) != Ok(wsum as f64 / wtot as f64) { bad.push("f64 weighted_mean".into()); }
                     bad
                 });
-                match r { Err(m) => rep.fail(cfg, &case, "mean family panicked", json!({"panic": m})), Ok(bad) => if !bad.is_empty() { rep.fail(cfg, &case, &bad[0].clone(), json!({"problems": bad})); } }
+                match r { Err(m) => rep.fail_p(cfg, &case, "C06", "mean family panicked", json!({"panic": m})), Ok(bad) => if !bad.is_empty() { rep.fail_p(cfg, &case, "C06,C20", &bad[0].clone(), json!({"problems": bad})); } }
                 rep.eval(&case, size >= 2);
                 if rep.stop { return; }
             }}
@@ -157,7 +157,7 @@ pub fn means(cfg: &mut Cfg, rep: &mut Report) {
                             }
                             bad
                         });
-                        match r { Err(m) => rep.fail(cfg, &case, "per-axis mean family panicked", json!({"panic": m, "layout": ld})), Ok(bad) => if !bad.is_empty() { rep.fail_p(cfg, &case, "C06,C18,C20", &bad[0].clone(), json!({"problems": bad, "layout": ld})); } }
+                        match r { Err(m) => rep.fail_p(cfg, &case, "C06,C18", "per-axis mean family panicked", json!({"panic": m, "layout": ld})), Ok(bad) => if !bad.is_empty() { rep.fail_p(cfg, &case, "C06,C18,C20", &bad[0].clone(), json!({"problems": bad, "layout": ld})); } }
                     }
                     rep.eval(&case, size >= 2);
                 }
@@ -173,7 +173,7 @@ pub fn means(cfg: &mut Cfg, rep: &mut Report) {
         let case = format!("means;float_means;{:?}", v);
         if !rep.want(cfg, &case) { continue; }
         let (h, g) = (a.harmonic_mean().unwrap(), a.geometric_mean().unwrap());
-        if ((h - hm) / hm).abs() > 1e-12 || ((g - gm) / gm).abs() > 1e-12 { rep.fail(cfg, &case, "harmonic/geometric mean differs from its definition", json!({"h": h, "g": g})); }
+        if ((h - hm) / hm).abs() > 1e-12 || ((g - gm) / gm).abs() > 1e-12 { rep.fail_p(cfg, &case, "C06", "harmonic/geometric mean differs from its definition", json!({"h": h, "g": g})); }
         rep.eval(&case, true);
     }
 }
